@@ -104,6 +104,24 @@ Theorem C15_restored_obeys_ring : forall enc dec, codec_lawsZ enc dec -> forall 
     forall ops, snd (qrun cb_step (cb_of_json q') ops) = snd (qrun (lastn_step cap) l ops).
 Proof. intros enc dec [H1 H2] cap Hc ops0. exact (cb_restored_obeys enc dec H1 H2 cap Hc ops0). Qed.
 
+(* the same for ANY pair of capacities (document written by a ring of capacity cap0, decoded into a fresh ring of
+   capacity cap) and for a document written by an array list: the restored ring holds the last min(cap, n) values of
+   the source, oldest first, and is the bounded FIFO of capacity cap from then on *)
+Theorem C15_restored_obeys_ring_any_capacity : forall enc dec, codec_lawsZ enc dec -> forall cap0 cap, 1 <= cap0 -> 1 <= cap -> forall ops0,
+  let c := fst (qrun cb_step (cb0 cap0) ops0) in
+  let l := fst (qrun (lastn_step cap0) [] ops0) in
+  exists q', J.cb_unmarshal dec 0%Z no_zero_test (J.cb_marshal enc 0%Z (cb_json c)) (J.cb_fresh 0%Z cap) = Some q' /\
+    J.cb_values 0%Z q' = skipn (length l - cap) l /\
+    forall ops, snd (qrun cb_step (cb_of_json q') ops) = snd (qrun (lastn_step cap) (skipn (length l - cap) l) ops).
+Proof. intros enc dec [H1 H2] cap0 cap Hc0 Hc ops0. exact (cb_restored_obeys_any enc dec H1 cap0 cap Hc0 Hc ops0). Qed.
+Theorem C15_restored_obeys_ring_from_arraylist : forall enc dec, codec_lawsZ enc dec -> forall cap, 1 <= cap -> forall ops0,
+  let c := fst (run al_step al0 ops0) in
+  let l := fst (run seq_step [] ops0) in
+  exists q', J.cb_unmarshal dec 0%Z no_zero_test (J.al_marshal enc (al_json c)) (J.cb_fresh 0%Z cap) = Some q' /\
+    J.cb_values 0%Z q' = skipn (length l - cap) l /\
+    forall ops, snd (qrun cb_step (cb_of_json q') ops) = snd (qrun (lastn_step cap) (skipn (length l - cap) l) ops).
+Proof. intros enc dec [H1 H2] cap Hc ops0. exact (al_into_ring_obeys enc dec H1 cap Hc ops0). Qed.
+
 (* non-vacuity: a heap built by a bulk push and two pops, marshalled, decoded into a list that held something else,
    keeps popping minima; a wrapped ring of capacity 2 comes back in order *)
 Definition encZ (z : Z) : J.jval := J.JNum z.
@@ -132,3 +150,5 @@ Print Assumptions C15_restored_obeys_linkedlist.
 Print Assumptions C15_restored_obeys_linkedlistqueue.
 Print Assumptions C15_restored_obeys_linkedliststack.
 Print Assumptions C15_restored_obeys_ring.
+Print Assumptions C15_restored_obeys_ring_any_capacity.
+Print Assumptions C15_restored_obeys_ring_from_arraylist.
